@@ -268,9 +268,13 @@ int main()
         d.read_csv(is, p);
         pr.setup_terminals(t[5] == "1" ? typing::strong : typing::weak);
         std::ostringstream o;
-        o << "ok V " << d.columns.size() - 1;
+        std::size_t nv(0);
+        for (std::size_t i(1); i < d.columns.size(); ++i)
+          if (d.columns[i].domain != d_void) ++nv;
+        o << "ok V " << nv;
         for (std::size_t i(1); i < d.columns.size(); ++i)
         {
+          if (d.columns[i].domain == d_void) continue;   // no variable for a column without a domain
           const auto provided(d.columns[i].name);
           const auto name(provided.empty() ? "X" + std::to_string(i) : provided);
           const symbol *s(pr.sset.decode(name));
